@@ -49,11 +49,11 @@ def run(tier, seed, replay=None):
         settings, sig = workloads.sample_settings(r, doc)
         # user derives are the user's responsibility and not part of the promise -- except that asking for a trait
         # every type already carries must not take it away: those requests are kept
-        keep = [d for d in settings.pop("derives", []) if d in ("Clone", "Debug")]
+        keep = [d for d in settings.pop("derives", []) if d in ("Clone", "Debug", "PartialEq")]
         if keep:
             settings["derives"] = keep
         for p in settings.get("patches", []):
-            pk = [d for d in p.pop("derives", []) if d in ("Clone", "Debug")]
+            pk = [d for d in p.pop("derives", []) if d in ("Clone", "Debug", "PartialEq", "PartialOrd", "Hash")]
             if pk:
                 p["derives"] = pk
         if r.random() < 0.25:
@@ -76,6 +76,16 @@ def run(tier, seed, replay=None):
         cases.append({"id": cid, "settings": {"struct_builder": j % 2 == 1}, "history": [{"op": "root", "schema": {"definitions": defs}}],
                       "opts": {"has_impl": False}})
         meta[cid] = {"settings": cases[-1]["settings"], "doc": {"definitions": defs}}
+    for j, req in enumerate([["PartialOrd"], ["PartialEq"], ["Hash"], ["Ord"], ["Eq"], ["PartialOrd", "Hash"]]):
+        defs = {"Label": {"type": "string"}, "Code": {"type": "string", "minLength": 1, "maxLength": 8},
+                "Level": {"type": "string", "enum": ["lo", "hi"]}, "Key": {"type": "string", "pattern": "^[a-z]+$"},
+                "Holder": {"type": "object", "properties": {"l": {"$ref": "#/definitions/Label"}, "c": {"$ref": "#/definitions/Code"},
+                                                            "m": {"type": "object", "additionalProperties": {"type": "integer"},
+                                                                  "propertyNames": {"$ref": "#/definitions/Key"}}}}}
+        st = {"patches": [{"name": n_, "derives": req} for n_ in ("Label", "Code", "Level", "Key")]}
+        cid = "pd%02d" % j
+        cases.append({"id": cid, "settings": st, "history": [{"op": "root", "schema": {"definitions": defs}}], "opts": {"has_impl": False}})
+        meta[cid] = {"settings": st, "doc": {"definitions": defs}}
     if replay:
         data = json.load(open(replay))
         c = (data.get("first") or data)["case"]
